@@ -81,6 +81,25 @@ PROPS = {
         unchecked=["string::from_iter! rides on the iterator DSL (C10, not applicable) and is not covered",
                    "the macro glue (const LEN / const CONC evaluation) is rustc's const evaluation; a few constant instances are smoke-tested by Kani harnesses"],
     ),
+    "C11": _p(
+        "Array-building macros return fully initialised arrays equal to std's",
+        kani=["c11"], level="model_checking",
+        level_text="Kani (bounded, N <= 3): array::map!/map_!/from_fn!/from_fn_! with a most-general closure (symbolic value / break / break 'outer / return / continue per call): "
+                   "a produced array has every element equal to the closure's value for that index (nondeterministic uninitialised memory makes an unwritten slot fail), the guard asserts fire on early exits, "
+                   "equality with <[T;N]>::map / core::array::from_fn; ArrayBuilder from every reachable state (push/len/as_slice/clone/build, over- and under-filling panic); collect_const! on constant chains",
+        technique="Kani bounded harnesses with a most-general client closure; expected-panic whitelisting (not a deductive proof: MaybeUninit arrays and macro-inlined closures are outside Verus)",
+        assumptions=["N <= 3; element types u8/u16", "collect_const! evaluates in const items: only constant instance programs can be exercised"],
+        unchecked=["panicking closures (Kani ends the path at a panic)", "the space of programs beyond control-flow exits of the closure"],
+    ),
+    "C15": _p(
+        "By-value array and aggregate APIs move out every element exactly once",
+        kani=["c15"], level="model_checking",
+        level_text="Kani (bounded, N <= 3): drop ledger as ghost state over ArrayConsumer (next/next_back/as_slice/clone/early drop), ArrayBuilder (push/clone/build/drop), array::map_! and 30 destructure! pattern shapes: "
+                   "every id handed over or dropped exactly once on completing paths, at most once on early exits, payloads unchanged and in order",
+        technique="Kani bounded harnesses with a drop-ledger ghost state (not a deductive proof: ManuallyDrop/ptr::read code is outside Verus)",
+        assumptions=["N <= 3, op sequences <= N+2", "alignment UB (read vs read_unaligned on packed fields) is invisible to Kani"],
+        unchecked=["leak-on-panic paths (Kani cannot observe state after a panic)"],
+    ),
 }
 
 NOT_APPLICABLE = {
@@ -95,10 +114,8 @@ PENDING = {
     "C06": "check under construction",
     "C07": "check under construction",
     "C09": "check under construction",
-    "C11": "check under construction",
     "C13": "check under construction",
     "C14": "check under construction",
-    "C15": "check under construction",
     "C16": "check under construction",
     "C19": "check under construction",
 }
